@@ -311,6 +311,8 @@ fn object_arrays(ctx: &Ctx, maxlen: u32) {
         V::obj(&[("p", V::Int(1)), ("q", V::Int(2))]),
         V::obj(&[("p", V::Bool(false))]),
         V::obj(&[("p", V::s("x"))]),
+        // an object that really has a member called `size`
+        V::obj(&[("size", V::Int(5)), ("p", V::Int(2))]),
     ];
     let n = pool.len() as u64;
     let total = seq_count(n, maxlen);
@@ -329,7 +331,8 @@ fn object_arrays(ctx: &Ctx, maxlen: u32) {
             let a: Vec<V> = seq_decode(i, n, maxlen).iter().map(|k| pool[*k as usize].clone()).collect();
             let data = V::obj(&[("a", V::Arr(a.clone())), ("one", V::Int(1)), ("nothing", V::Nil)]);
             // map: in order, the properties of the objects that have the property
-            for k in ["p", "q", "zz"] {
+            // `size`, `first`, `last` are ordinary property names here: only objects that have such a member count
+            for k in ["p", "q", "zz", "size", "first", "last"] {
                 let m: Vec<V> = a.iter().filter_map(|o| getp(o, k)).collect();
                 ctx.exact("map", "value", i, &format!("map: '{k}'"), &data, &darr(&m));
             }
@@ -380,7 +383,7 @@ fn object_arrays(ctx: &Ctx, maxlen: u32) {
         },
         |i| json!({"a": seq_decode(i, n, maxlen)}),
     );
-    ctx.report.family(FamilyStat { name, cases: total, nontrivial: total * 18, skipped: 0, note: "map where(truthy / target literal / target variable / nil and false targets / absent) compact-by-property sort-by-property(stable) sort_natural-by-property uniq size; properties present, absent, nil, false".into() });
+    ctx.report.family(FamilyStat { name, cases: total, nontrivial: total * 21, skipped: 0, note: "map (incl. the names size/first/last) where(truthy / target literal / target variable / nil and false targets / absent) compact-by-property sort-by-property(stable) sort_natural-by-property uniq size; properties present, absent, nil, false".into() });
 }
 
 fn long_arrays(ctx: &Ctx, lens: &[usize]) {
